@@ -3,7 +3,8 @@
 // case line:  <mode> <init> <events>
 //
 //	mode    A = also start a fresh server after every step at which no buffer has unsaved edits, E = only after the
-//	        last step, N = never
+//	        last step, N = never; followed by configuration letters: n = the client sends no PluginPath option,
+//	        f = multi-root workspace: the directory o/ is a second workspace folder (then p q are workspace files too)
 //	init    initial disk, "a=ld1,b=u1" or "-"          (file letters: a b c d inside the workspace, p q outside)
 //	events  ";"-separated, "-" for none
 //	  editor actions (disk write BEFORE the notification, as an editor does):
@@ -20,6 +21,7 @@
 //	content = "e" (empty file) or a sequence of statements, one per line:
 //	    l `local v = 1` | c `print(1)` | s syntax error | d<k> `g<k> = 1` | u<k> `print(g<k>)` | r<f> `require("<f>")`
 //	    | f1 `function gf(a) end` | f2 `function gf(a, b) end` | g `gf(1, 2, 3)`
+//	    | k<j> `---@class T<j>` | t<j> `---@type T<j>`
 //
 // answer: steps joined by "|", step 0 = after initialize/initialized; step = <view> or <view>~<fresh view>;
 //
@@ -83,6 +85,12 @@ func c08Render(code string) string {
 			}
 		case 'g':
 			sb.WriteString("gf(1, 2, 3)\n")
+		case 'k':
+			i++
+			sb.WriteString("---@class T" + string(code[i]) + "\n")
+		case 't':
+			i++
+			sb.WriteString("---@type T" + string(code[i]) + "\n")
 		default:
 			panic("bad content code " + code)
 		}
@@ -91,6 +99,7 @@ func c08Render(code string) string {
 }
 
 type c08Env struct {
+	cfg   string // configuration letters of the mode field
 	base  string
 	paths []string          // by file id
 	short map[string]string // path -> letter
@@ -100,8 +109,24 @@ type c08Env struct {
 	srv   *c08Srv
 }
 
-func c08NewEnv(base string) *c08Env {
-	e := &c08Env{base: base, short: map[string]string{}, disk: map[int]string{}, buf: map[int]string{}, dirty: map[int]bool{}}
+func (e *c08Env) inside(f int) bool { return c08Inside(f) || strings.Contains(e.cfg, "f") }
+
+// start: a server initialised on the workspace as the configuration says
+func (e *c08Env) start() {
+	e.srv = c08Start()
+	plugin := filepath.Join(e.base, "x")
+	if strings.Contains(e.cfg, "n") {
+		plugin = ""
+	}
+	if strings.Contains(e.cfg, "f") {
+		e.srv.initialize(filepath.Join(e.base, "w"), plugin, filepath.Join(e.base, "o"))
+	} else {
+		e.srv.initialize(filepath.Join(e.base, "w"), plugin)
+	}
+}
+
+func c08NewEnv(base string, cfg string) *c08Env {
+	e := &c08Env{cfg: cfg, base: base, short: map[string]string{}, disk: map[int]string{}, buf: map[int]string{}, dirty: map[int]bool{}}
 	os.MkdirAll(filepath.Join(base, "w"), 0o755)
 	os.MkdirAll(filepath.Join(base, "o"), 0o755)
 	for i, n := range c08Names {
@@ -263,18 +288,17 @@ func c08Self(leg string, input string, tmo time.Duration) (string, error) {
 	}
 }
 
-// c08.fresh: line = "<workspace base directory> [<letters of the open documents outside the workspace>]"; prints the view
-// of a server freshly initialised on <base>/w and then told (didOpen with the disk text) about those documents, as a
-// client does after a server restart
+// c08.fresh: line = "<workspace base directory> <configuration letters or -> [<letters of the open documents outside the
+// workspace>]"; prints the view of a server freshly initialised on <base>/w (configuration as given) and then told (didOpen
+// with the disk text) about those documents, as a client does after a server restart
 func c08Fresh(line string) string {
 	fs := strings.Fields(line)
 	base := fs[0]
-	e := c08NewEnv(base)
-	e.srv = c08Start()
-	e.srv.initialize(filepath.Join(base, "w"), filepath.Join(base, "x"))
-	if len(fs) > 1 {
-		for i := 0; i < len(fs[1]); i++ {
-			f := c08Fid(fs[1][i])
+	e := c08NewEnv(base, strings.Trim(fs[1], "-"))
+	e.start()
+	if len(fs) > 2 {
+		for i := 0; i < len(fs[2]); i++ {
+			f := c08Fid(fs[2][i])
 			if data, err := os.ReadFile(e.paths[f]); err == nil {
 				e.srv.didOpen(e.paths[f], string(data))
 			}
@@ -289,8 +313,8 @@ func c08One(line string) string {
 	if len(fs) != 4 {
 		return "BAD-CASE"
 	}
-	base, mode, init, events := fs[0], fs[1], fs[2], fs[3]
-	e := c08NewEnv(base)
+	base, mode, cfg, init, events := fs[0], fs[1][:1], fs[1][1:], fs[2], fs[3]
+	e := c08NewEnv(base, cfg)
 	if init != "-" {
 		for _, it := range strings.Split(init, ",") {
 			f, code := c08SplitEq(it)
@@ -301,10 +325,10 @@ func c08One(line string) string {
 		if mode == "N" || (mode == "E" && !last) || len(e.dirty) > 0 {
 			return ""
 		}
-		arg := base
+		arg := base + " -" + cfg
 		open := ""
 		for i := range c08Names {
-			if _, ok := e.buf[i]; ok && !c08Inside(i) {
+			if _, ok := e.buf[i]; ok && !e.inside(i) {
 				open += c08Names[i]
 			}
 		}
@@ -321,8 +345,7 @@ func c08One(line string) string {
 	if events != "-" {
 		evs = strings.Split(events, ";")
 	}
-	e.srv = c08Start()
-	e.srv.initialize(filepath.Join(base, "w"), filepath.Join(base, "x"))
+	e.start()
 	out := []string{e.view() + fresh(len(evs) == 0)}
 	for i, ev := range evs {
 		e.do(ev)
@@ -353,6 +376,9 @@ func init() {
 	register("c08.raw", c08History)
 	register("c08.batch", c08History)
 	register("c08.tagonly", c08History)
+	register("c08.anntype", c08History)
+	register("c08.annraw", c08History)
+	register("c08.indir", c08History)
 	register("c08.one", c08One)
 	register("c08.fresh", c08Fresh)
 }
